@@ -76,6 +76,15 @@ func (c *checker) finishTail() {
 			leaders = append(leaders, r)
 		}
 	}
+	// raft blocks on NotifyCh by design: a server that is still handing a leadership notification
+	// to a consumer that has not taken it can neither lead nor follow properly, and that is the
+	// consumer's doing - the bounded-progress readings say nothing about raft then
+	for _, r := range up {
+		if s := c.server(r.S); len(s.notes) < s.enters+s.exits {
+			c.cov("tail-notification-pending")
+			return
+		}
+	}
 	// probe result
 	var probe *call
 	for _, cl := range c.callList {
